@@ -558,8 +558,9 @@ theorem oracle_iff_describes (o : Opts) (fs : SbomDir) (d : Doc) : oracle o fs d
   oracle_none_iff o fs d
 
 /-- `Benign`: ONE decidable predicate over the input —
-  * `headerOk`: image, layers and source get pairwise distinct identifiers and the source element
-    (url, commit) does not read like an entry of the installed database;
+  * `headerOk`: header elements (image, layers, source) with the same identifier are the same element
+    (`HdrInj`; a layer listed twice is fine, two digests sanitising to one identifier are not) and the source
+    element (url, commit) does not read like an entry of the installed database;
   * ¬F11a `idCollision`, ¬F11c `embeddedTarget`, ¬F11d `multiTarget`, exactly as the driver computes them.
 Embedded SBOMs that do not describe an element named like their apk, unparsable files and licensing infos
 are all allowed. -/
@@ -568,7 +569,7 @@ def Benign (o : Opts) (fs : SbomDir) : Prop := benign o fs = true
 instance (o : Opts) (fs : SbomDir) : Decidable (Benign o fs) := inferInstanceAs (Decidable (_ = true))
 
 theorem benign_unfold {o : Opts} {fs : SbomDir} : Benign o fs ↔
-    ((header o).ids.Nodup ∧ ∀ a ∈ o.apks, ∀ p ∈ srcPkgs o, matchesApk a p = false) ∧
+    (HdrInj o ∧ ∀ a ∈ o.apks, ∀ p ∈ srcPkgs o, matchesApk a p = false) ∧
     idCollision o = false ∧ embeddedTarget o fs = false ∧ multiTarget o fs = false := by
   unfold Benign
   rw [benign_iff, headerOk_iff]
@@ -619,6 +620,11 @@ def benignOpts : Opts := ⟨"sha256:ab".toList, ["sha256:cd".toList, "sha256:ef"
 example : Benign benignOpts benignFS ∧
     okAnd (generate benignOpts benignFS id) (fun d => d.packages.length == 7 && d.lics.length == 1) = true :=
   ⟨by decide, by decide⟩
+
+/-- … also by one without image digest, with the same layer listed twice, the zero-hash layer and a database
+entry listed twice (`DistinctIds` and `(header o).ids.Nodup` both fail here) -/
+example : Benign ⟨[], ["sha256:cd".toList, [], "sha256:cd".toList], [], "1".toList,
+      [⟨"foo".toList, "1".toList, "22".toList⟩, ⟨"foo".toList, "1".toList, "22".toList⟩]⟩ benignFS := by decide
 
 /-- **invalid_is_listed** — contrapositive: if the oracle fails on a document the model emits for an input
 with a well-formed header, then one of the three class predicates holds, as the driver computes them -/
@@ -829,11 +835,11 @@ example : NoTarget benignFS benignOpts ∧ DistinctIds benignOpts ∧ noEmbedded
 
 /-- **image_layer_clauses_partial** — the clauses `image-digest` and `layer-digest` of the oracle hold of the
 model's document for embedded SBOMs of arbitrary shape and for EVERY function `ord` (not even `OrdOk` is
-needed), provided the header identifiers are distinct and nothing else claims the image/layer names or
+needed), provided header elements are told apart by their identifiers and nothing else claims the image/layer names or
 identifiers.  Stronger than `image_layers_by_digest_embedded`: the image *element itself* (name, SHA256) and
 every layer element survive, also without an image digest. -/
 theorem image_layer_clauses_partial {o : Opts} {fs : SbomDir} {ord : List Id → List Id} {d : Doc}
-    (hh : (header o).ids.Nodup) (hu : unclaimed o fs = true) (h : generate o fs ord = .ok d) :
+    (hh : HdrInj o) (hu : unclaimed o fs = true) (h : generate o fs ord = .ok d) :
     imageOk o d = true ∧ layersOk o d = true :=
   ⟨(imageOk_iff o d).mpr (generate_unclaimed hh hu h).1, (layersOk_iff o d).mpr (generate_unclaimed hh hu h).2⟩
 
